@@ -61,3 +61,28 @@ pub fn corr_c15(seed: u64, n: u64) {
     }
     stats.print("C15", "corr");
 }
+
+pub fn corr_c08(seed: u64, n: u64) {
+    let mut rng = Rng(seed ^ 0xC08);
+    let mut stats = Stats::new();
+    let mut lens: Vec<usize> = vec![0, 1, 2, 3, 5, 50, 198, 199, 200, 201, 202, 250, 398, 399, 400, 401, 402, 597, 598, 599, 600, 601, 797, 1000, 1999, 2000];
+    for _ in 0..n { lens.push(2 + rng.i(1999) as usize); }
+    for len in lens {
+        // distinct points along a gentle random curve, so that a joint identifies its input index
+        let (c, _) = gen_curve(&mut rng);
+        let pts: Vec<Coord2> = (0..len).map(|k| c.point_at_pos(k as f64 / (len.max(2) - 1) as f64) + Coord2(k as f64 * 1e-3, 0.0)).collect();
+        let fit = fit_curve::<Curve<Coord2>>(&pts, 1.0);
+        let mut joints: Vec<usize> = vec![];
+        if let Some(curves) = &fit {
+            for c in curves.iter() {
+                if let Some(i) = pts.iter().position(|p| *p == c.start_point()) { joints.push(i); }
+            }
+        }
+        let mut line = format!("C08 blocks D #{} | #{} #{}", len, fit.is_some() as u8, joints.len());
+        for j in &joints { line += &format!(" #{}", j); }
+        stats.case(&line, len >= 200);
+        stats.count(if len < 2 { "n<2" } else if len < 200 { "n<200" } else { "n>=200" });
+        println!("{}", line);
+    }
+    stats.print("C08", "corr");
+}
